@@ -624,6 +624,9 @@ def ctor_cases(tier):
     for gap, byp in (('none', 0.0), ('no_flow', 0.0), ('flow', 0.01), ('flow', 1e-5)):
         out.append(mk(layout='core7', bset='mid', gap=gap, bypass=byp))
     out.append(mk(layout='core7', bset='near', gap='flow', bypass=0.01, user='half'))
+    for first in ('A', 'B'):
+        for bset in ('plain', 'mid'):
+            out.append(mk(layout='core7ab', bset=bset, gap='none', first=first))
     for gap in ('none', 'no_flow'):
         out.append(mk(layout='core7', bset='mid', gap=gap, eqT=True))
         out.append(mk(layout='core7', bset='plain', gap=gap, eqT=True, flow=0.05))
@@ -669,6 +672,26 @@ def ctor_scenario(c, user_file):
         setup['param_update_tol'] = c['tol']
     if c['layout'] == 'single':
         scn = S.single(dsn, c['flow'], length=L, power=P, setup=setup, coolant=c.get('coolant'))
+    elif c['layout'] == 'core7ab':
+        # two assembly types with DIFFERENT un-rodded regions; the type listed first owns boundaries that are
+        # neither multiples of a step nor power-cell boundaries
+        regb = {'lower': {'z_lo': 0.0, 'z_hi': round(L / 8.0 + 7e-4, 9), 'vf_coolant': 0.3},
+                'upper': {'z_lo': round(7 * L / 8.0 - 3e-4, 9), 'z_hi': L, 'vf_coolant': 0.3}}
+        rega = regions or {'lower': {'z_lo': 0.0, 'z_hi': round(L / 4.0 + 3e-4, 9), 'vf_coolant': 0.3},
+                           'upper': {'z_lo': round(3 * L / 4.0 - 7e-4, 9), 'z_hi': L, 'vf_coolant': 0.3}}
+        dsa = S.design(2, regions=copy.deepcopy(rega))
+        dsb = S.design(2, regions=copy.deepcopy(regb))
+        for rg in list(rega.values()) + list(regb.values()):
+            expected += [rg['z_lo'], rg['z_hi']]
+        first = c.get('first', 'A')
+        names = ['A', 'B'] if first == 'A' else ['B', 'A']
+        scn = {'setup': setup,
+               'core': {'length': L, 'pitch': round(max(dsa['duct_ftf']) + 0.004, 9),
+                        'gap_model': c['gap'], 'bypass_fraction': c['bypass']},
+               'types': {names[0]: dsa if names[0] == 'A' else dsb, names[1]: dsa if names[1] == 'A' else dsb},
+               'assign': [[('A' if i % 2 == 0 else 'B'), rr, pp, {'flowrate': c['flow'] * fi}]
+                          for i, ((rr, pp), fi) in enumerate(zip(S.core_positions(2), (1.0, 0.45, 0.8, 0.6, 0.9, 0.7, 0.5)))],
+               'power': {'asm': {str(i + 1): P for i in range(7)}}}
     else:
         scn = {'setup': setup,
                'core': {'length': L, 'pitch': round(max(dsn['duct_ftf']) + 0.004, 9),
